@@ -90,7 +90,9 @@ type faultPlan struct {
 	cnt   map[string]int
 }
 
-func newFaultPlan(specs []faultSpec) *faultPlan { return &faultPlan{specs: specs, cnt: map[string]int{}} }
+func newFaultPlan(specs []faultSpec) *faultPlan {
+	return &faultPlan{specs: specs, cnt: map[string]int{}}
+}
 
 // next returns the fault planned for this invocation of `pos` (first listed wins), or nil
 func (fp *faultPlan) next(pos string) *faultWhat {
